@@ -15,7 +15,9 @@ Rust modelled (by hand, statement for statement):
   the deque's front (`push_front` = cons);
 * `src/options/get.rs` `get_option_value`, `get_provenanced_value_for_feature`
   (`getOptionValue`, `provenanced`);
-* the `set_options!` macro: a value supplied on the command line is kept (`effective`).
+* the `set_options!` macro: a value supplied on the command line is kept (`effective`);
+* the statements of `set_options` before and after the macro that modify `opt` (`applyStmt`,
+  `finalValue`): their order, phase and the options they write are generated.
 
 Generated (from the source, on every run): the builtin feature tables, the order of the
 command-line flag tests, the `set_options!` option list, which features `--color-only`
@@ -350,6 +352,8 @@ inductive Val
   | git (s : String)    -- git config text: `[delta]`, `[delta "f"]`, or a builtin's git key
   | bdef (v : BVal)     -- a builtin feature's default
   | dflt                -- nothing set it: clap's default
+  | pre (s : String)    -- clap's default as rewritten by a statement before the `set_options!` call
+  | post (s : String)   -- overwritten by a statement after the `set_options!` call
   deriving DecidableEq, Repr
 
 /-- `if let Some(git_config) = git_config { git_config.get::<T>(key) }`, `T` the option's type. -/
@@ -407,6 +411,92 @@ def effectiveWith (features : List Name) (inp : Inputs) (o : Name) : Val :=
 /-- The effective value of option `o` (an option of the `set_options!` list). -/
 def effective (π : List Name) (inp : Inputs) (o : Name) : Val :=
   effectiveWith (gatherFeatures π inp) inp o
+
+/-! ## The statements of `set_options` around the macro -/
+
+/-- A statement of `set_options` that can modify `opt` (generated: phase relative to the main
+    `set_options!` call, kind, options written). -/
+structure Stmt where
+  phase : String
+  kind : String
+  writes : List Name
+  deriving DecidableEq, Repr
+
+def stmts : List Stmt :=
+  Generated.Options.setOptionsStatements.map fun (p, k, w) => { phase := p, kind := k, writes := w }
+
+/-- `if s.starts_with("normal ") { format!("syntax {}", &s["normal ".len()..]) }`. -/
+def normalToSyntax (s : String) : Option String :=
+  if "normal ".toList.isPrefixOf s.toList then
+    some (String.ofList ("syntax ".toList ++ s.toList.drop 7))
+  else none
+
+/-- The text of a resolved value (a dynamic builtin default has none in the model). -/
+def valText (o : Name) : Val → Option String
+  | .cli s => some s
+  | .git s => some s
+  | .bdef (.lit s) => some s
+  | .bdef _ => none
+  | .dflt => lookup o Generated.Options.hackDefaults
+  | .pre s => some s
+  | .post s => some s
+
+/-- Is a boolean option on? -/
+def valIsTrue : Val → Bool
+  | .cli _ => true
+  | .git s => s = "true"
+  | .bdef (.flag b) => b
+  | _ => false
+
+/-- What one statement does to the value of option `o`.
+    * `sbs-normal-to-syntax` (the side-by-side rule for `minus-style` / `minus-emph-style`, guarded
+      by `!user_supplied_option`): before the macro it can only see clap's default; after the
+      macro it sees — and rewrites — the resolved value;
+    * `color-only-reset` (after the macro, when `opt.color_only`): forces `side-by-side = false`
+      and the three decoration styles to `none`, whatever their source (documented, #274);
+    * every other kind either writes before the macro under a guard that spares command-line
+      values (`or-env`, `fill-if-none`, `guarded-git-default`, `sub-macro`: their effect is a
+      default the macro then overrides — not modelled, probes avoid those options), writes
+      `opt.features` / `opt.computed.*` only, or is the deprecated `--24-bit-color` alias. -/
+def applyStmt (feats : List Name) (supplied colorOnly : Bool) (o : Name) (v : Val) (s : Stmt) : Val :=
+  if s.writes.contains o then
+    if s.kind = "sbs-normal-to-syntax" then
+      if feats.contains "side-by-side" && !supplied then
+        if s.phase = "pre" then
+          (match v with
+           | .dflt =>
+             (match (lookup o Generated.Options.hackDefaults).bind normalToSyntax with
+              | some t => .pre t
+              | none => v)
+           | _ => v)
+        else
+          (match (valText o v).bind normalToSyntax with
+           | some t => .post t
+           | none => v)
+      else v
+    else if s.kind = "color-only-reset" then
+      if colorOnly then .post (if o = "side-by-side" then "false" else "none") else v
+    else v
+  else v
+
+/-- The final value of option `o`: the value `set_options!` resolved, then the statements of
+    `set_options` in source order. -/
+def finalWith (features : List Name) (inp : Inputs) (o : Name) : Val :=
+  stmts.foldl
+    (applyStmt features (lookup o inp.cli).isSome (valIsTrue (effectiveWith features inp "color-only")) o)
+    (effectiveWith features inp o)
+
+def finalValue (π : List Name) (inp : Inputs) (o : Name) : Val :=
+  finalWith (gatherFeatures π inp) inp o
+
+/-- Options the documented `--color-only` block resets. -/
+def colorOnlyResetOptions : List Name :=
+  (stmts.filter (·.kind = "color-only-reset")).flatMap (·.writes)
+
+/-- Options written by statements the model does not interpret (`--24-bit-color` alias,
+    environment fall-backs, the light/dark/syntax-theme sub-macro, `whitespace-error-style`). -/
+def uninterpretedOptions : List Name :=
+  (stmts.filter (fun s => s.kind ≠ "sbs-normal-to-syntax" ∧ s.kind ≠ "color-only-reset")).flatMap (·.writes)
 
 /-! ## Specification (the documented order) -/
 
